@@ -45,10 +45,59 @@ def cases(tier):
     return cs
 
 
+# operand kinds x statement forms: every cast, unary form, selector, call, copy, format, range, funcop ... applied to a value of
+# every kind the VM knows (ill-typed programs are inputs too: they must end in a diagnostic, not in a panic)
+KINDS = {'int': SP.ph(1), 'float': '1.5', 'str': '"%s"' % SP.sph(1), 'bool': 'true', 'null': 'NULL', 'list': '[%s, 2]' % SP.ph(1), 'empty-list': '[]',
+         'tuple': '{a = %s, b = "x"}' % SP.ph(1), 'empty-tuple': '{}', 'func0': '(func () => 1)', 'func1': '(func (x) => x)', 'func2': '(func (x, y) => [x, y])',
+         'func3': '(func (x, y, z) => x)', 'module': '(module {a = 1} => (r) {let r = mod.a;})', 'env': 'env'}
+FORMS_K = ['int({K})', 'float({K})', 'str({K})', 'bool({K})', 'not {K}', '{K}.a', '{K}.0', '{K}.("a")', '{K}.(0)', '{K}()', '{K}(1)', '{K}(1, 2)', '{K}{{a = 1}}',
+           '"@ @" %% {K}', '"@" %% ({K})', '{K}:3', '1:{K}', '1:{K}:3', 'select ({K}, 1) => {{a = 1}}', 'select ("a") => {{a = {K}}}', '{K} in {{a = 1}}', '"a" in {K}',
+           '{K} is "int"', '1 is {K}', '[{K}] + [1]', '{K} + {K}', '{K} == {K}', '{K} ~ "a"', '"a" ~ {K}', '{K} && true', 'import {K}', 'include str {K}', 'convert json {K}',
+           'convert flags {K}', 'convert env {K}', 'convert exec {K}', 'convert toml {K}', 'convert xml {K}', 'convert yaml {K}', 'convert {K} 1', 'TRACE {K}', '{K}.a.b', '({K}).a']
+FUNCOPS = ['map({F}, {K})', 'filter({F}, {K})', 'reduce({F}, 0, {K})', 'reduce({F}, {K}, [1, 2])', 'map({K}, [1])', 'filter({K}, [1])', 'reduce({K}, 0, [1])']
+STMTS_K = ['assert {K};', 'fail {K};', 'let x :: {K} = 1;', 'let x :: int = {K};', 'constraint c = {K};', 'let {{a = v}} = {K};']
+
+
+def kind_cases(tier):
+    cs = []
+
+    def add(name, text):
+        c = {'fam': 'kinds', 'name': name, 'text': text}
+        if SP.ph(1) in text:
+            c['ints'] = [1]
+        if SP.sph(1) in text:
+            c['strs'] = {1: 1}
+        cs.append(c)
+    for kn, k in KINDS.items():
+        for f in FORMS_K:
+            # range bounds stay concrete here (a symbolic bound has an unbounded trip count; family `range` covers it under an assumption)
+            kk = k.replace(SP.ph(1), '2') if ':' in f else k
+            if f.startswith(('import', 'include')):
+                kk = kk.replace(SP.sph(1), 'x')     # file names stay concrete (virtual file system keys)
+            add('%s / %s' % (f, kn), 'let r = ' + f.format(K=kk).replace('%%', '%') + ';')
+        for f in STMTS_K:
+            add('%s / %s' % (f, kn), f.format(K=k))
+    targets = ['list', 'empty-list', 'tuple', 'empty-tuple', 'str', 'int', 'null', 'func1'] if tier == 'quick' else list(KINDS)
+    for fo in FUNCOPS[:4]:
+        for fn in ('func0', 'func1', 'func2', 'func3'):
+            for kn in targets:
+                add('%s / %s / %s' % (fo, fn, kn), 'let r = ' + fo.format(F=KINDS[fn], K=KINDS[kn]) + ';')
+    for fo in FUNCOPS[4:]:
+        for kn in KINDS:
+            add('%s / %s' % (fo, kn), 'let r = ' + fo.format(K=KINDS[kn]) + ';')
+    return cs
+
+
 def harness(ctx, case):
     prog = ctx.prog
     ucgrun.install_parse_override(prog)
-    stmts = ucgrun.parse_ok(ctx, case['text'])
+    if case['fam'] == 'kinds':
+        r = ucgrun.parse_program(ctx, case['text'])
+        if r.variant != 0:
+            return {'reached': True, 'asserts': 0, 'violations': [], 'unparsed': 1, 'sample': {'text': case['text'], 'result': 'does not parse'}}
+        stmts = r.fields[0]
+    else:
+        stmts = ucgrun.parse_ok(ctx, case['text'])
     ints = {i: ctx.bv('a%d' % i, 64) for i in case.get('ints', [])}
     floats = {i: ctx.fp('f%d' % i) for i in case.get('floats', [])}
     strs = {}
@@ -128,6 +177,40 @@ def harness_garbage(ctx, case):
     return out
 
 
+RECURSIVE = {
+    'two-identical': 'constraint A = "" | [A];\nconstraint B = "" | [B];\nlet f = func (a :: A) => a;\nlet y :: B = f("");\n',
+    'two-different': 'constraint A = "" | [A];\nconstraint B = 1 | [B];\nlet f = func (a :: A) => a;\nlet y :: B = f("");\n',
+    'self': 'constraint A = "" | [A];\nlet f = func (a :: A) => a;\nlet y :: A = f([[""]]);\n',
+    'mutual': 'constraint A = "" | [B];\nconstraint B = 1 | [A];\nlet f = func (a :: A) => a;\nlet y :: B = f([1]);\n',
+    'tuple-recursion': 'constraint T = {v = 1, next = NULL | T};\nconstraint U = {v = 1, next = NULL | U};\nlet f = func (a :: T) => a;\nlet y :: U = f({v = 1, next = NULL});\n',
+    'three-cycle': 'constraint A = "" | [B];\nconstraint B = "" | [C];\nconstraint C = "" | [A];\nlet f = func (a :: A) => a;\nlet y :: C = f("");\n',
+    'value-nesting-3': 'constraint A = "" | [A];\nlet y :: A = [[[""]]];\n',
+}
+
+
+def harness_recursive(ctx, case):
+    """bounded execution as a stand-in for termination (as in nesting-cost): building a file whose constraints are recursive must end — in a
+    value or a diagnostic — within the step budget. Exhausting it is reported and judged natively (stack overflow / time limit)."""
+    from mirsym.vals import CellV, Ref, VecV
+    prog = ctx.prog
+    ucgrun.install_parse_override(prog)
+    text = RECURSIVE[case['name']]
+    ctx.fs['/cwd/conf.ucg'] = text
+    out = {'reached': True, 'asserts': 1, 'violations': []}
+    env = ucgrun.make_env(ctx)
+    fb = ctx.call('FileBuilder::new', [prog.to_path('/cwd'), VecV([]), env])
+    cell = CellV(fb)
+    try:
+        res = ctx.call('FileBuilder::build', [Ref(cell.slot, 0, ()), prog.to_path('/cwd/conf.ucg')])
+        out['sample'] = {'name': case['name'], 'result': 'Ok' if res.variant == 0 else 'Err', 'steps': ctx.steps}
+    except (interp.BoundHit, RecursionError) as e:
+        out['violations'].append({'key': 'C04:recursive-constraints:%s' % case['name'], 'what': 'building a file with recursive constraints does not end within %d MIR steps (%s): %r' % (ctx.fuel, type(e).__name__, text),
+                                  'case': {'kind': 'build-timed', 'text': text, 'limit_s': 20}})
+    except interp.Panic as p:
+        out['violations'].append({'key': 'C04:panic:recursive-constraints:%s' % panic_site(ctx, p), 'what': 'panic (%s) building %r' % (p.msg[:80], text), 'case': {'kind': 'build-timed', 'text': text, 'limit_s': 20}})
+    return out
+
+
 NEST = {'list': ('[', ']'), 'tuple': ('{a = ', '}'), 'paren': ('(', ')'), 'call-arg': ('f(', ')'), 'select-arm': ('select ("a", 0) => {a = ', '}')}
 
 
@@ -175,6 +258,10 @@ def run(fw):
                       'list selection with symbolic indices; format templates of 0..%d symbolic printable-ASCII bytes with 0..2 arguments in every argument form' % (3 if fw.tier == 'quick' else 4),
                       'outside': 'non-termination, stack exhaustion, arbitrary text up to 4 KiB, token-level mutations of corpus files, exit status of the binary'})
     fw.explore('vm-kernels', harness, cs, fuel=20_000_000)
+    kc = kind_cases(fw.tier)
+    fw.bounds['kinds'] = '%d statement forms x %d operand kinds + %d funcop forms x function arity 0..3 x target kind (%d programs; int and 1-byte string leaves symbolic)' % (len(FORMS_K) + len(STMTS_K), len(KINDS), len(FUNCOPS), len(kc))
+    recs = fw.explore('kinds', harness, kc, fuel=50_000_000)
+    fw.families['kinds']['programs_the_parser_rejects'] = sum(r.get('unparsed', 0) for r in recs)
     quick = fw.tier == 'quick'
     g = [{'stage': 'tokenize', 'ctx': c, 'n': n} for c in (CONTEXTS[:2] if quick else CONTEXTS[:5]) for n in ((1, 2) if quick else (1, 2, 3))]
     g += [{'stage': 'eval', 'ctx': c, 'n': n} for c in CONTEXTS for n in ((1,) if quick else (1, 2))]
@@ -183,7 +270,23 @@ def run(fw):
     nest = [{'kind': k, 'depth': 5 if quick else 7} for k in NEST]
     fw.bounds['nesting_cost'] = 'parser steps for nesting depth 1..%d of %s: increments bounded by 4x the first increment (bounded execution; a proxy for termination, which symbolic execution cannot decide)' % (5 if quick else 7, ', '.join(NEST))
     fw.explore('nesting-cost', harness_nesting, nest, fuel=3_000_000_000)
+    fw.bounds['recursive_constraints'] = '%d files with self-, mutually and structurally identical recursive constraints through FileBuilder::build (checker + VM) under a budget of 60M MIR steps (bounded execution; a proxy for termination)' % len(RECURSIVE)
+    fw.explore('recursive-constraints', harness_recursive, [{'name': n} for n in RECURSIVE], fuel=60_000_000)
     for v in fw.violations:
+        if v['case'].get('kind') == 'build-timed':
+            import subprocess, tempfile, time
+            with tempfile.TemporaryDirectory(prefix='ucg-verif-c04-') as d:
+                open(os.path.join(d, 'conf.ucg'), 'w').write(v['case']['text'])
+                t0 = time.time()
+                try:
+                    r = fw.native().cli(['build', 'conf.ucg'], d, timeout=v['case']['limit_s'])
+                    v['reproduced'] = r['rc'] not in (0, 1)        # killed by a signal (stack overflow -> SIGABRT) or a panic (101)
+                    v['native'] = {'rc': r['rc'], 'stderr': r['stderr'][-200:]}
+                except subprocess.TimeoutExpired:
+                    v['reproduced'] = True
+                    v['native'] = {'seconds': round(time.time() - t0, 1), 'limit_s': v['case']['limit_s']}
+            fw.replayed += 1
+            continue
         if v['key'].startswith('C04:nesting-cost'):
             import subprocess, tempfile, time
             with tempfile.TemporaryDirectory(prefix='ucg-verif-c04-') as d:
